@@ -1,7 +1,9 @@
 //! C14: non-maximum suppression correspondence.  One case per line:
-//!   case <k> kind=<name> thr=<f32bits> st=<N|f32bits> boxes=<xc,yc,angle|N,aspect,height,score|N;...>
+//!   case <k> kind=<name> thr=<f32bits> st=<N|f32bits> boxes=<xc,yc,angle|N,aspect,height,score|N;...> pre=<-|xc,yc,angle,aspect,height,how;...>
 //!        kept=<i,i,...|P> again=<i,i,...|P|-> M=<i:j:f32bits,...>
 //! * boxes: every field as f32 bit pattern (`N` = None for the optional angle / score);
+//! * pre:   (empty when no box has one) per box `-` or the EARLIER state in which `gen_vertices()` was called before the box
+//!          was rotated / moved / resized to the fields given in `boxes` (see `Pre`); nms must work from the current fields;
 //! * kept:  positions (in the caller's slice) of the boxes returned by the REAL `nms`, in output order, found by
 //!          pointer identity; `P` = the call panicked;
 //! * again: the REAL `nms` applied to its own output (clones of the kept boxes, each with its own score), as
@@ -26,8 +28,42 @@ struct RawBox {
     score: Option<f32>,
 }
 
+/// An earlier state of a box: it was created with these fields (angle given), `gen_vertices()` was called, and only then
+/// it was brought to its final fields - by `rotate_mut` + writes to the public fields (how = 0; the cached polygon is
+/// never invalidated by these) or through the consuming `rotate(a)` + field writes (how = 1).  nms must see the CURRENT fields.
+#[derive(Clone, Copy, Debug)]
+struct Pre {
+    xc: f32,
+    yc: f32,
+    angle: f32,
+    aspect: f32,
+    height: f32,
+    how: u32,
+}
+
 fn mk(b: &RawBox) -> Universal2DBox {
     Universal2DBox::new(b.xc, b.yc, b.angle, b.aspect, b.height)
+}
+
+fn mk_pre(b: &RawBox, pre: &Option<Pre>) -> Universal2DBox {
+    match pre {
+        None => mk(b),
+        Some(p) => {
+            let mut x = Universal2DBox::new(p.xc, p.yc, Some(p.angle), p.aspect, p.height);
+            x.gen_vertices();
+            if p.how == 1 {
+                x = x.rotate(b.angle.unwrap_or(0.0));
+            } else if let Some(a) = b.angle {
+                x.rotate_mut(a);
+            }
+            x.angle = b.angle;
+            x.xc = b.xc;
+            x.yc = b.yc;
+            x.aspect = b.aspect;
+            x.height = b.height;
+            x
+        }
+    }
 }
 
 fn opt_bits(x: Option<f32>) -> String {
@@ -38,7 +74,11 @@ fn opt_bits(x: Option<f32>) -> String {
 }
 
 fn run_case(k: usize, kind: &str, thr: f32, st: Option<f32>, boxes: &[RawBox]) {
-    let dets: Vec<(Universal2DBox, Option<f32>)> = boxes.iter().map(|b| (mk(b), b.score)).collect();
+    run_case_pre(k, kind, thr, st, boxes, &vec![None; boxes.len()]);
+}
+
+fn run_case_pre(k: usize, kind: &str, thr: f32, st: Option<f32>, boxes: &[RawBox], pres: &[Option<Pre>]) {
+    let dets: Vec<(Universal2DBox, Option<f32>)> = boxes.iter().zip(pres).map(|(b, p)| (mk_pre(b, p), b.score)).collect();
     // the real function
     let kept: Option<Vec<usize>> = guarded(|| {
         let res = nms(&dets, thr, st);
@@ -47,7 +87,8 @@ fn run_case(k: usize, kind: &str, thr: f32, st: Option<f32>, boxes: &[RawBox]) {
             .collect()
     });
     let again: Option<Option<Vec<usize>>> = kept.as_ref().map(|kept| {
-        let second: Vec<(Universal2DBox, Option<f32>)> = kept.iter().map(|i| (mk(&boxes[*i]), boxes[*i].score)).collect();
+        // the caller keeps what nms returned: clones of the returned boxes, each with its score
+        let second: Vec<(Universal2DBox, Option<f32>)> = kept.iter().map(|i| (dets[*i].0.clone(), boxes[*i].score)).collect();
         guarded(|| {
             let res = nms(&second, thr, st);
             res.iter().map(|r| second.iter().position(|(b, _)| std::ptr::eq(b, *r)).unwrap()).collect()
@@ -95,7 +136,15 @@ fn run_case(k: usize, kind: &str, thr: f32, st: Option<f32>, boxes: &[RawBox]) {
         Some(None) => "P".to_string(),
         Some(Some(v)) => idx(v),
     };
-    println!("case {} kind={} thr={} st={} boxes={} kept={} again={} M={} I={}", k, kind, f32b(thr), opt_bits(st), bs.join(";"), kept_s, again_s, m.join(","), inter.join(","));
+    let pre_s: Vec<String> = pres
+        .iter()
+        .map(|p| match p {
+            None => "-".to_string(),
+            Some(p) => format!("{},{},{},{},{},{}", f32b(p.xc), f32b(p.yc), f32b(p.angle), f32b(p.aspect), f32b(p.height), p.how),
+        })
+        .collect();
+    let pre_f = if pres.iter().any(|p| p.is_some()) { pre_s.join(";") } else { "".to_string() };
+    println!("case {} kind={} thr={} st={} boxes={} pre={} kept={} again={} M={} I={}", k, kind, f32b(thr), opt_bits(st), bs.join(";"), pre_f, kept_s, again_s, m.join(","), inter.join(","));
 }
 
 // ---------------------------------------------------------------------------------------------------------
@@ -381,7 +430,34 @@ fn gen_case(rng: &mut Rng, k: usize) {
         }
         _ => Some(scores.iter().cloned().fold(1.0f32, f32::max) + 1.0),
     };
-    run_case(k, kind, thr, st, &boxes);
+    // 1/4 of the cases: some boxes have a HISTORY - vertices generated in an earlier state, then rotated / moved / resized
+    let mut pres: Vec<Option<Pre>> = vec![None; boxes.len()];
+    let mut kind_s = kind.to_string();
+    if rng.chance(1, 4) && !boxes.is_empty() {
+        kind_s = format!("{}+history", kind);
+        for (i, b) in boxes.iter().enumerate() {
+            if !rng.chance(1, 2) || !(b.height > 0.0 && b.aspect > 0.0) {
+                continue;
+            }
+            let mut p = Pre { xc: b.xc, yc: b.yc, angle: b.angle.unwrap_or(0.0), aspect: b.aspect, height: b.height, how: if rng.chance(1, 5) { 1 } else { 0 } };
+            match rng.below(5) {
+                0 => p.angle += *rng.pick(&[0.3f32, 0.7853982, 1.5707964, -0.5, 1.0]),
+                1 => {
+                    p.xc += b.height * *rng.pick(&[0.5f32, 1.0, -0.75, 2.0]);
+                    p.yc += b.height * *rng.pick(&[0.0f32, 0.5, -1.0])
+                }
+                2 => p.aspect *= *rng.pick(&[0.25f32, 0.5, 2.0, 3.0]),
+                3 => p.height *= *rng.pick(&[0.5f32, 2.0, 0.25]),
+                _ => {
+                    p.angle += 0.6;
+                    p.xc -= b.height;
+                    p.height *= 0.5
+                }
+            }
+            pres[i] = Some(p);
+        }
+    }
+    run_case_pre(k, &kind_s, thr, st, &boxes, &pres);
 }
 
 fn parse_opt(s: &str) -> Option<f32> {
@@ -392,15 +468,29 @@ fn parse_opt(s: &str) -> Option<f32> {
     }
 }
 
-fn parse_case(line: &str) -> Option<(f32, Option<f32>, Vec<RawBox>)> {
+fn parse_case(line: &str) -> Option<(f32, Option<f32>, Vec<RawBox>, Vec<Option<Pre>>)> {
     let mut thr = None;
     let mut st = None;
     let mut boxes = vec![];
+    let mut pres: Vec<Option<Pre>> = vec![];
     for tok in line.split_whitespace() {
         if let Some(v) = tok.strip_prefix("thr=") {
             thr = Some(f32::from_bits(v.parse::<u32>().ok()?));
         } else if let Some(v) = tok.strip_prefix("st=") {
             st = parse_opt(v);
+        } else if let Some(v) = tok.strip_prefix("pre=") {
+            for e in v.split(';').filter(|x| !x.is_empty()) {
+                if e == "-" {
+                    pres.push(None);
+                } else {
+                    let f: Vec<&str> = e.split(',').collect();
+                    if f.len() != 6 {
+                        return None;
+                    }
+                    let g = |s: &str| f32::from_bits(s.parse::<u32>().unwrap());
+                    pres.push(Some(Pre { xc: g(f[0]), yc: g(f[1]), angle: g(f[2]), aspect: g(f[3]), height: g(f[4]), how: f[5].parse().ok()? }));
+                }
+            }
         } else if let Some(v) = tok.strip_prefix("boxes=") {
             for b in v.split(';').filter(|x| !x.is_empty()) {
                 let f: Vec<&str> = b.split(',').collect();
@@ -412,7 +502,8 @@ fn parse_case(line: &str) -> Option<(f32, Option<f32>, Vec<RawBox>)> {
             }
         }
     }
-    Some((thr?, st, boxes))
+    pres.resize(boxes.len(), None);
+    Some((thr?, st, boxes, pres))
 }
 
 fn main() {
@@ -506,8 +597,8 @@ fn main() {
         "replay" => {
             let txt = std::fs::read_to_string(a.file.expect("--file")).unwrap();
             for (k, line) in txt.lines().enumerate() {
-                if let Some((thr, st, boxes)) = parse_case(line) {
-                    run_case(k, "replay", thr, st, &boxes);
+                if let Some((thr, st, boxes, pres)) = parse_case(line) {
+                    run_case_pre(k, "replay", thr, st, &boxes, &pres);
                 }
             }
         }
